@@ -22,9 +22,28 @@ pub trait Uni: Sized + Clone + Debug + 'static {
     fn vals() -> Vec<Self>;
     /// value equality (bit identity for floats)
     fn eqv(&self, o: &Self) -> bool;
+    /// values equal to `self` that were constructed differently (other
+    /// insertion order, capacity, ring-buffer layout, ...)
+    fn variants(&self) -> Vec<Self> { Vec::new() }
+    /// holds for a value that came out of the decoder (skipped fields of
+    /// derived types are back at their default)
+    fn decoded_ok(&self) -> bool { true }
 }
 
-fn take<T: Uni>(n: usize) -> Vec<T> {
+fn lift<T: Uni, C>(items: &[T], rebuild: impl Fn(Vec<T>) -> C) -> Vec<C> {
+    // replace one element at a time by each of its variants
+    let mut out = Vec::new();
+    for (i, it) in items.iter().enumerate() {
+        for w in it.variants() {
+            let mut v: Vec<T> = items.to_vec();
+            v[i] = w;
+            out.push(rebuild(v));
+        }
+    }
+    out
+}
+
+pub fn take<T: Uni>(n: usize) -> Vec<T> {
     let v = T::vals();
     let len = v.len();
     if len <= n {
@@ -210,6 +229,12 @@ impl<T: Uni> Uni for Option<T> {
             _ => false,
         }
     }
+
+    fn variants(&self) -> Vec<Self> {
+        self.as_ref().map(|x| x.variants().into_iter().map(Some).collect()).unwrap_or_default()
+    }
+
+    fn decoded_ok(&self) -> bool { self.as_ref().is_none_or(Uni::decoded_ok) }
 }
 
 impl<T: Uni, E: Uni> Uni for Result<T, E> {
@@ -255,6 +280,58 @@ impl<T: Uni> Uni for Vec<T> {
     fn vals() -> Vec<Self> { seqs::<T>() }
 
     fn eqv(&self, o: &Self) -> bool { seq_eq(self, o) }
+
+    fn variants(&self) -> Vec<Self> {
+        let mut c = Vec::with_capacity(self.len() + 17);
+        c.extend(self.iter().cloned());
+        let mut out = vec![c];
+        out.extend(lift(self, |v| v));
+        out
+    }
+}
+
+/// every ring-buffer layout of a deque with this content: split between
+/// push_front / push_back at every position, head at every offset of
+/// buffers of several capacities, with and without `make_contiguous`
+pub fn deque_layouts<T: Clone>(c: &[T]) -> Vec<VecDeque<T>> {
+    let n = c.len();
+    let mut out: Vec<VecDeque<T>> = Vec::new();
+    out.push(c.iter().cloned().collect());
+    for k in 0..=n {
+        for cap in [0usize, n, n + 1, n + 3, 8] {
+            let mut d: VecDeque<T> = VecDeque::with_capacity(cap);
+            for x in &c[k..] {
+                d.push_back(x.clone());
+            }
+            for x in c[..k].iter().rev() {
+                d.push_front(x.clone());
+            }
+            let mut e = d.clone();
+            e.make_contiguous();
+            out.push(d);
+            out.push(e);
+        }
+    }
+    if n > 0 {
+        for cap in [n, n + 1, n + 3, 8] {
+            for shift in 1..=cap.max(1) + 1 {
+                let mut d: VecDeque<T> = VecDeque::with_capacity(cap);
+                // move the head around the ring
+                for _ in 0..shift {
+                    d.push_back(c[0].clone());
+                    d.pop_front();
+                }
+                d.extend(c.iter().cloned());
+                out.push(d.clone());
+                // and rotate through the wrap point
+                let mut r = d;
+                r.rotate_left(1 % n.max(1));
+                r.rotate_right(1 % n.max(1));
+                out.push(r);
+            }
+        }
+    }
+    out
 }
 
 impl<T: Uni> Uni for VecDeque<T> {
@@ -275,6 +352,13 @@ impl<T: Uni> Uni for VecDeque<T> {
     fn eqv(&self, o: &Self) -> bool {
         seq_eq(&self.iter().cloned().collect::<Vec<_>>(), &o.iter().cloned().collect::<Vec<_>>())
     }
+
+    fn variants(&self) -> Vec<Self> {
+        let c: Vec<T> = self.iter().cloned().collect();
+        let mut out = deque_layouts(&c);
+        out.extend(lift(&c, |v| v.into_iter().collect()));
+        out
+    }
 }
 
 impl<T: Uni> Uni for LinkedList<T> {
@@ -284,6 +368,23 @@ impl<T: Uni> Uni for LinkedList<T> {
 
     fn eqv(&self, o: &Self) -> bool {
         seq_eq(&self.iter().cloned().collect::<Vec<_>>(), &o.iter().cloned().collect::<Vec<_>>())
+    }
+
+    fn variants(&self) -> Vec<Self> {
+        let c: Vec<T> = self.iter().cloned().collect();
+        let mut out = Vec::new();
+        for k in 0..=c.len() {
+            let mut l = LinkedList::new();
+            for x in &c[k..] {
+                l.push_back(x.clone());
+            }
+            for x in c[..k].iter().rev() {
+                l.push_front(x.clone());
+            }
+            out.push(l);
+        }
+        out.extend(lift(&c, |v| v.into_iter().collect()));
+        out
     }
 }
 
@@ -321,6 +422,15 @@ impl<A: Uni, B: Uni> Uni for (A, B) {
     }
 
     fn eqv(&self, o: &Self) -> bool { self.0.eqv(&o.0) && self.1.eqv(&o.1) }
+
+    fn variants(&self) -> Vec<Self> {
+        let mut out: Vec<Self> =
+            self.0.variants().into_iter().map(|a| (a, self.1.clone())).collect();
+        out.extend(self.1.variants().into_iter().map(|b| (self.0.clone(), b)));
+        out
+    }
+
+    fn decoded_ok(&self) -> bool { self.0.decoded_ok() && self.1.decoded_ok() }
 }
 
 impl<A: Uni, B: Uni, C: Uni> Uni for (A, B, C) {
@@ -369,6 +479,12 @@ macro_rules! uni_wrap {
             fn vals() -> Vec<Self> { take::<T>(12).into_iter().map($mk).collect() }
 
             fn eqv(&self, o: &Self) -> bool { (**self).eqv(&**o) }
+
+            fn variants(&self) -> Vec<Self> {
+                (**self).variants().into_iter().map($mk).collect()
+            }
+
+            fn decoded_ok(&self) -> bool { (**self).decoded_ok() }
         }
     };
 }
@@ -472,6 +588,22 @@ impl<T: Uni + Ord> Uni for BTreeSet<T> {
     fn eqv(&self, o: &Self) -> bool {
         seq_eq(&self.iter().cloned().collect::<Vec<_>>(), &o.iter().cloned().collect::<Vec<_>>())
     }
+
+    fn variants(&self) -> Vec<Self> {
+        // reverse insertion order, and with an insert + remove in the history
+        let mut a = BTreeSet::new();
+        for x in self.iter().rev() {
+            a.insert(x.clone());
+        }
+        let mut out = vec![a];
+        if let Some(extra) = T::vals().into_iter().find(|x| !self.contains(x)) {
+            let mut b = self.clone();
+            b.insert(extra.clone());
+            b.remove(&extra);
+            out.push(b);
+        }
+        out
+    }
 }
 
 impl<K: Uni + Ord, V: Uni> Uni for BTreeMap<K, V> {
@@ -493,6 +625,34 @@ impl<K: Uni + Ord, V: Uni> Uni for BTreeMap<K, V> {
         self.len() == o.len()
             && self.iter().zip(o.iter()).all(|((a, b), (c, d))| a.eqv(c) && b.eqv(d))
     }
+
+    fn variants(&self) -> Vec<Self> {
+        let mut a = BTreeMap::new();
+        for (k, v) in self.iter().rev() {
+            a.insert(k.clone(), v.clone());
+        }
+        let mut out = vec![a];
+        // overwritten entry in the history
+        if let Some((k, v)) = self.iter().next() {
+            let mut b = BTreeMap::new();
+            if let Some(other) = V::vals().into_iter().find(|x| !x.eqv(v)) {
+                b.insert(k.clone(), other);
+            }
+            for (k, v) in self.iter() {
+                b.insert(k.clone(), v.clone());
+            }
+            out.push(b);
+        }
+        let items: Vec<(K, V)> = self.iter().map(|(k, v)| (k.clone(), v.clone())).collect();
+        for (i, (_, v)) in items.iter().enumerate() {
+            for w in v.variants() {
+                let mut m = self.clone();
+                m.insert(items[i].0.clone(), w);
+                out.push(m);
+            }
+        }
+        out
+    }
 }
 
 impl<T: Uni + std::hash::Hash + Eq> Uni for HashSet<T> {
@@ -501,6 +661,35 @@ impl<T: Uni + std::hash::Hash + Eq> Uni for HashSet<T> {
     }
 
     fn eqv(&self, o: &Self) -> bool { self == o }
+
+    fn variants(&self) -> Vec<Self> {
+        let items: Vec<T> = self.iter().cloned().collect();
+        let mut out = Vec::new();
+        // every rotation and the reverse of the current iteration order, in
+        // tables of several capacities (each new table has a new random seed)
+        for r in 0..items.len().max(1) {
+            for cap in [0usize, 64] {
+                let mut h = HashSet::with_capacity(cap);
+                for i in 0..items.len() {
+                    h.insert(items[(i + r) % items.len()].clone());
+                }
+                out.push(h);
+            }
+        }
+        let mut h = HashSet::new();
+        for x in items.iter().rev() {
+            h.insert(x.clone());
+        }
+        out.push(h);
+        if let Some(extra) = T::vals().into_iter().find(|x| !self.contains(x)) {
+            let mut b = self.clone();
+            b.insert(extra.clone());
+            b.remove(&extra);
+            b.shrink_to_fit();
+            out.push(b);
+        }
+        out
+    }
 }
 
 impl<K: Uni + std::hash::Hash + Eq, V: Uni> Uni for HashMap<K, V> {
@@ -521,6 +710,34 @@ impl<K: Uni + std::hash::Hash + Eq, V: Uni> Uni for HashMap<K, V> {
     fn eqv(&self, o: &Self) -> bool {
         self.len() == o.len()
             && self.iter().all(|(k, v)| o.get(k).is_some_and(|w| v.eqv(w)))
+    }
+
+    fn variants(&self) -> Vec<Self> {
+        let items: Vec<(K, V)> = self.iter().map(|(k, v)| (k.clone(), v.clone())).collect();
+        let mut out = Vec::new();
+        for r in 0..items.len().max(1) {
+            for cap in [0usize, 64] {
+                let mut h = HashMap::with_capacity(cap);
+                for i in 0..items.len() {
+                    let (k, v) = items[(i + r) % items.len()].clone();
+                    h.insert(k, v);
+                }
+                out.push(h);
+            }
+        }
+        let mut h = HashMap::new();
+        for (k, v) in items.iter().rev() {
+            h.insert(k.clone(), v.clone());
+        }
+        out.push(h);
+        for (i, (_, v)) in items.iter().enumerate() {
+            for w in v.variants() {
+                let mut m = self.clone();
+                m.insert(items[i].0.clone(), w);
+                out.push(m);
+            }
+        }
+        out
     }
 }
 
@@ -669,6 +886,7 @@ pub struct Ctx {
     pub values: u64,
     pub pairs: u64,
     pub triples: u64,
+    pub variants: u64,
     pub bad: Vec<String>,
     /// running digest of all seeded hashes (cross-process comparison)
     pub digest: u128,
@@ -701,8 +919,34 @@ pub fn check_ser<T: Uni + Encode + Decode>(ctx: &mut Ctx, name: &str) {
                         e.len()
                     ));
                 }
+                if !back.decoded_ok() {
+                    ctx.fail(format!(
+                        "{name}: decode(encode({v:?})) = {back:?}: a skipped field is not at its default"
+                    ));
+                }
             }
             Err(er) => ctx.fail(format!("{name}: decode(encode({v:?})) failed: {er}")),
+        }
+        // the same value constructed differently
+        for w in v.variants() {
+            ctx.values += 1;
+            ctx.variants += 1;
+            if !w.eqv(v) {
+                ctx.fail(format!("MACHINERY {name}: variant {w:?} of {v:?} is not equal to it"));
+                continue;
+            }
+            let ew = enc(&w, &p);
+            match dec::<T>(&ew, &p) {
+                Ok((back, used)) => {
+                    if !back.eqv(v) || used != ew.len() {
+                        ctx.fail(format!(
+                            "{name}: {v:?} built another way decodes to {back:?} ({used} of {} bytes)",
+                            ew.len()
+                        ));
+                    }
+                }
+                Err(er) => ctx.fail(format!("{name}: decode(encode({w:?})) failed: {er}")),
+            }
         }
     }
     // prefix-freeness / injectivity over all pairs of distinct values
@@ -803,8 +1047,20 @@ pub fn check_hash<T: Uni + StableHash + Encode + Decode>(ctx: &mut Ctx, name: &s
                 ));
             }
         }
-        // the seed matters
-        let _ = hash128(v, 8);
+        // construction history / internal layout
+        for w in v.variants() {
+            ctx.values += 1;
+            ctx.variants += 1;
+            if !w.eqv(v) {
+                ctx.fail(format!("MACHINERY {name}: variant {w:?} of {v:?} is not equal to it"));
+                continue;
+            }
+            if hash128(&w, 7) != h {
+                ctx.fail(format!(
+                    "{name}: equal values hash differently depending on how they were built: {v:?}"
+                ));
+            }
+        }
     }
 }
 
